@@ -32,12 +32,12 @@ ASSUMPTIONS = [
 ]
 UNREACHABLE = ["AutoMod (jax not installed)"]
 FLOORS = {"quick": {"cases_held": 700, "probes": 2500, "distinct_nontrivial": 250},
-          "thorough": {"cases_held": 8000, "probes": 30000, "distinct_nontrivial": 500}}
+          "thorough": {"cases_held": 30000, "probes": 100000, "distinct_nontrivial": 1500}}
 K7 = "EigenSolve-sparse/eigenvector-adjoint-factorises-exactly-singular-shifted-matrix"
 
 
 def plan(tier, seed):
-    n = 1100 if tier == "quick" else 12000
+    n = 1100 if tier == "quick" else 40000
     fams = []
     for f, w in catalogue.WEIGHTS.items():
         fams += [f] * w
